@@ -28,7 +28,7 @@ LEVEL = "exploration"
 SHARDS = {"quick": 8, "thorough": 16}
 TIMEOUT_S = {"quick": 900, "thorough": 3600}
 BUDGET_S = {"quick": 150, "thorough": 1800}
-RULE = ("alphabet of 23 actions (+2 in the walks: an endpoint's reliable packet is take()n and its copy sent by the proxy): {viewer, sim} x {reliable, unreliable} x {no acks, appended acks for everything seen, "
+RULE = ("alphabet of 23 actions (+4 in the walks: an endpoint's reliable packet is take()n and its copy sent by the proxy; an endpoint retransmits its oldest unacknowledged reliable packet with the acknowledgements it owes at that moment): {viewer, sim} x {reliable, unreliable} x {no acks, appended acks for everything seen, "
         "appended ack for the oldest seen}, standalone PacketAck {all, oldest, oldest+appended rest} per side, proxy "
         "injections {out, in} x {reliable, unreliable}, drop-next toggle, clock +1 s, clock +3 s (resend interval) each "
         "followed by resend_unacked(). Exhaustive DFS with (implementation, model) state hashing to depth 4 (quick) / 6 "
@@ -44,7 +44,7 @@ ASSUMPTIONS = [
 MUST_REACH = {"events": 5000, "acks_translated_after_injection": 50, "acks_for_injected_swallowed": 50,
               "drops_with_piggybacked_acks": 20, "proxy_acks_for_dropped_reliable": 20, "resends_observed": 50,
               "budgets_exhausted": 5, "completions_by_ack": 50, "packetack_with_appended_acks": 20, "states": 300,
-              "older_ack_after_second_injection": 10, "protocol_level_events": 2000, "taken_reliable_sent_later": 50}
+              "older_ack_after_second_injection": 10, "protocol_level_events": 2000, "taken_reliable_sent_later": 50, "endpoint_retransmissions": 50, "retransmissions_dropped": 5}
 
 _ser = UDPMessageSerializer()
 _es = Settings()
@@ -66,7 +66,7 @@ for side in ("V", "S"):
         ACTIONS.append(f"{side}P{mode}")
 ACTIONS += ["IOr", "IOu", "IIr", "IIu", "D", "T1", "T3"]
 # walks (not the exhaustive part) also let the proxy TAKE an endpoint's reliable packet and send the copy itself
-WALK_ACTIONS = ACTIONS + ["VT", "ST"]
+WALK_ACTIONS = ACTIONS + ["VT", "ST", "VX", "SX", "VY", "SY"]
 
 
 class RecTransport(AbstractUDPTransport):
@@ -86,6 +86,9 @@ class Side:
     def __init__(self):
         self.next_id = 1
         self.seen_unacked = []
+        self.seen_ever = set()        # reliable wire ids this endpoint has been shown at least once
+        self.own_unacked = []         # own reliable ids for which no acknowledgement has reached this endpoint yet
+        self.own_reliable = []        # every own reliable id
         self.sent_ids = set()
 
 
@@ -172,15 +175,20 @@ class Run:
         expected_dst = self.far_addr if em["direction"] == OUT else self.near_addr
         if em["dst"] != expected_dst:
             self.viol("wrong-destination", "datagram sent to the wrong endpoint", em=_j(em))
-        if em["flags"] & int(PacketFlags.RELIABLE) and em["id"] not in side.seen_unacked and not em["flags"] & int(PacketFlags.RESENT):
+        if em["flags"] & int(PacketFlags.RELIABLE) and em["id"] not in side.seen_ever:
+            # first time this endpoint is shown the packet (possibly a retransmission whose first copy the proxy dropped)
+            side.seen_ever.add(em["id"])
             side.seen_unacked.append(em["id"])
+        for a in em["acks"] + em["blocks"]:
+            if a in side.own_unacked:
+                side.own_unacked.remove(a)
         # truthfulness: every ack shown to X names an id X sent itself
         for a in em["acks"] + em["blocks"]:
             if a not in side.sent_ids:
                 self.viol("ack-for-id-never-sent", "an endpoint was shown an acknowledgement for a packet id it never sent",
                           target=target, ack=a, em=_j(em), sent=sorted(side.sent_ids))
 
-    def endpoint_packet(self, who, reliable, ack_mode, packet_ack_mode=None):
+    def endpoint_packet(self, who, reliable, ack_mode, packet_ack_mode=None, resend=False):
         """who in V/S sends its next packet. ack_mode: '-', 'A' (all seen), 'o' (oldest seen).
         packet_ack_mode: None or 'A'/'o'/'m' (m = PacketAck block for the oldest + appended acks for the rest)."""
         m = self.model
@@ -207,12 +215,28 @@ class Run:
                     return False
                 blocks, appended = pending[:1], pending[1:]
                 ctx.count("packetack_with_appended_acks")
+        if resend == "crossed" and not side.own_reliable:
+            return False
+        if resend is True and not side.own_unacked:
+            return False
         for a in appended + blocks:
             side.seen_unacked.remove(a)
-        o = side.next_id
-        side.next_id += 1
-        side.sent_ids.add(o)
+        if resend:
+            # the endpoint retransmits its oldest reliable packet nobody has acknowledged to it yet, with the RESENT flag and
+            # whatever acknowledgements it owes at this moment
+            # ("crossed": the acknowledgement for it was already on its way - the retransmission crossed it on the wire)
+            o = side.own_unacked[0] if resend is True else side.own_reliable[-1]
+            ctx.count("endpoint_retransmissions")
+        else:
+            o = side.next_id
+            side.next_id += 1
+            side.sent_ids.add(o)
+            if reliable:
+                side.own_unacked.append(o)
+                side.own_reliable.append(o)
         flags = int(PacketFlags.RELIABLE) if reliable else 0
+        if resend:
+            flags |= int(PacketFlags.RESENT)
         if packet_ack_mode is None:
             msg = Message("CompletePingCheck", Block("PingID", PingID=o & 0xFF), packet_id=o, flags=flags, acks=tuple(appended))
         else:
@@ -251,6 +275,8 @@ class Run:
                    for a in non_inj_app + non_inj_blk):
                 ctx.count("older_ack_after_second_injection")
         peer = "S" if who == "V" else "V"
+        if dropping and resend:
+            ctx.count("retransmissions_dropped")
         if dropping:
             m.drops_total += 1
             # (1) reliable -> the proxy acks the sender itself, (2) piggy-backed acks go on in a separate PacketAck
@@ -468,6 +494,10 @@ class Run:
         who = action[0]
         if action[1] == "T":
             return self.endpoint_taken(who)
+        if action[1] == "X":
+            return self.endpoint_packet(who, True, "A", resend=True)
+        if action[1] == "Y":
+            return self.endpoint_packet(who, True, "A", resend="crossed")
         if action[1] == "P":
             return self.endpoint_packet(who, False, "-", packet_ack_mode=action[2])
         return self.endpoint_packet(who, action[1] == "r", action[2])
@@ -633,7 +663,7 @@ def random_walk(ctx, rng, steps, tries, profile="mixed", backend="circuit"):
         run = (ProtocolRun if backend == "protocol" else Run)(ctx, tries)
         run.backend = backend
         run.clock = clock
-        weights = [3 if a[0] in "VS" else 2 for a in WALK_ACTIONS]
+        weights = [3 if a[0] in "VS" else 4 if a == "D" else 2 for a in WALK_ACTIONS]
         if profile == "timers":
             # several injected reliable packets outstanding at once, fine-grained clock, few acks
             weights = [{"IOr": 6, "IIr": 6, "T1": 14, "T3": 3, "VT": 3, "ST": 3}.get(a, 2 if a[0] in "VS" and a.endswith("-") else
@@ -670,7 +700,8 @@ def run(ctx):
     ctx.sample({"dfs_first_actions": firsts, "depth": depth, "states": n, "alphabet": ACTIONS})
     # directed: retry budgets run out (both directions, both budgets, with unrelated traffic in between)
     if ctx.shard == 0:
-        for tries, path in ((3, ["VT", "T3", "SrA", "T3"]), (3, ["ST", "T3", "T3", "T3", "T3"]), (3, ["IOr", "T3", "T3", "T3", "T3"]), (3, ["IIr", "T1", "T3", "Vu-", "T3", "Su-", "T3", "T1"]),
+        for tries, path in ((3, ["D", "Vr-", "Sr-", "Sr-", "D", "VY", "VY"]), (3, ["Vr-", "Sr-", "D", "VX", "SrA", "VY"]),
+                            (3, ["VT", "T3", "SrA", "T3"]), (3, ["ST", "T3", "T3", "T3", "T3"]), (3, ["IOr", "T3", "T3", "T3", "T3"]), (3, ["IIr", "T1", "T3", "Vu-", "T3", "Su-", "T3", "T1"]),
                             (10, ["IOr"] + ["T3"] * 11), (10, ["IIr", "IOr"] + ["T3", "Vu-", "T1"] * 11),
                             (3, ["IOr", "IOr", "T3", "SPo", "T3", "T3", "T3"]), (3, ["IIr", "T3", "T3", "VrA", "T3", "T3"])):
             replay_path(ctx, path, tries)
@@ -688,7 +719,8 @@ def run(ctx):
             break
         random_walk(ctx, rng, 120, tries=rng.choice([3, 10]), profile="timers" if k % 3 == 2 else "mixed", backend="protocol")
     if ctx.shard == 0:
-        for path in (["VT", "T3", "T3", "T3", "T3"], ["ST", "T1", "T3", "VrA", "T3"], ["IIr", "D", "SrA", "T3", "T3"], ["IOr", "D", "VrA", "T3"], ["IIr", "D", "VPA", "T3"], ["IOr", "IIr", "D", "SuA", "D", "VuA", "T3"]):
+        for path in (["Sr-", "Sr-", "D", "Vr-", "D", "VY", "VY"], ["Vr-", "D", "Sr-", "Sr-", "D", "SY", "SX"],
+                     ["VT", "T3", "T3", "T3", "T3"], ["ST", "T1", "T3", "VrA", "T3"], ["IIr", "D", "SrA", "T3", "T3"], ["IOr", "D", "VrA", "T3"], ["IIr", "D", "VPA", "T3"], ["IOr", "IIr", "D", "SuA", "D", "VuA", "T3"]):
             replay_path(ctx, path, 3, backend="protocol")
             ctx.ev()
     tmon.drain(ctx)
